@@ -1,6 +1,7 @@
 package auth
 
 import (
+	"bytes"
 	"crypto/rand"
 	"encoding/hex"
 	"errors"
@@ -97,7 +98,7 @@ func (cr *CryptoSignAuthenticator) Authenticate(sid wamp.ID, details wamp.Dict, 
 			msg.MessageType(), client)
 	}
 
-	verify, err := cr.verifySignature(authRsp.Signature, key)
+	verify, err := cr.verifySignature(authRsp.Signature, challenge, key)
 	if err != nil {
 		return nil, err
 	}
@@ -119,7 +120,7 @@ func (cr *CryptoSignAuthenticator) Authenticate(sid wamp.ID, details wamp.Dict, 
 	return welcome, nil
 }
 
-func (cr *CryptoSignAuthenticator) verifySignature(signature string, publicKey []byte) (bool, error) {
+func (cr *CryptoSignAuthenticator) verifySignature(signature string, challenge, publicKey []byte) (bool, error) {
 	signatureBytes, err := hex.DecodeString(signature)
 	if err != nil {
 		fmt.Println(err)
@@ -130,12 +131,14 @@ func (cr *CryptoSignAuthenticator) verifySignature(signature string, publicKey [
 		return false, fmt.Errorf("signed message has invalid length (was %v, but should have been 96", len(signatureBytes))
 	}
 
-	signedOut := make([]byte, 32)
 	var pubkey [32]byte
 	copy(pubkey[:], publicKey)
-	_, verify := sign.Open(signedOut, signatureBytes, &pubkey)
-
-	return verify, nil
+	message, verify := sign.Open(nil, signatureBytes, &pubkey)
+	if !verify {
+		return false, nil
+	}
+	// The signed message must be the challenge issued in this handshake.
+	return bytes.Equal(message, challenge), nil
 }
 
 // TODO: Finish implementing extractChannelBinding.
